@@ -196,9 +196,56 @@ func FamConc[T any](c Codec[T], seed int64) SysRecord {
 	if !waitAll(&wg, 8*time.Second) {
 		rec.Hang = true
 	}
+	// now and then: more calls in flight at once than any fixed internal bound one might think of
+	if seed%6 == 0 {
+		const many = 1100
+		var wg2 sync.WaitGroup
+		bad := make(chan string, many)
+		for k := 0; k < many; k++ {
+			wg2.Add(1)
+			go func() {
+				defer wg2.Done()
+				v, err := p.ra.Gate(context.Background(), 50000)
+				if err != nil || v != 50000 {
+					bad <- fmt.Sprintf("(%d, %v)", v, err)
+				}
+			}()
+		}
+		entered := func() int {
+			n := 0
+			for _, e := range p.w.Events() {
+				if e.Kind == "inv" && e.Method == "Gate" && e.Tag == 50000 {
+					n++
+				}
+			}
+			return n
+		}
+		if !waitUntil(func() bool { return entered() == many }, 10*time.Second) {
+			rec.Notes = append(rec.Notes, fmt.Sprintf("only %d of %d concurrent calls ever reached their handler", entered(), many))
+		}
+		close(p.w.gate(50000))
+		if !waitAll(&wg2, 10*time.Second) {
+			rec.Hang = true
+		}
+		select {
+		case b := <-bad:
+			rec.Notes = append(rec.Notes, "one of "+fmt.Sprint(many)+" concurrent calls returned "+b)
+		default:
+		}
+	}
 	rec.LinkA, rec.LinkB = p.close()
 	rec.Calls = calls
-	rec.Events = p.w.Events()
+	evs := p.w.Events()
+	if len(evs) > 4000 { // the burst's invocations are summarised above
+		var keep []SysEvent
+		for _, e := range evs {
+			if e.Tag != 50000 {
+				keep = append(keep, e)
+			}
+		}
+		evs = keep
+	}
+	rec.Events = evs
 	return rec
 }
 
@@ -220,7 +267,7 @@ func FamValues[T any](c Codec[T], stream bool, chunk int, seed int64, n int) Sys
 		}
 		tag := 200 + i
 		cl := SysCall{Tag: tag, From: from}
-		switch r.Intn(17) {
+		switch r.Intn(18) {
 		case 0:
 			x := []int64{0, 1, -1, 1 << 40, -(1 << 40), 9007199254740991, int64(r.Intn(100000))}[r.Intn(7)]
 			cl.Method, cl.Arg, cl.Oracle = "EchoInt", canon(x), roundTrip(c, x)
@@ -318,6 +365,11 @@ func FamValues[T any](c Codec[T], stream bool, chunk int, seed int64, n int) Sys
 			cl.Method, cl.Arg, cl.Oracle, cl.Extra = "Mirror", canon(ptr), roundTrip(c, ptr), roundTrip(c, ptr)
 			v, err := rem.Mirror(ctx, tag, ptr)
 			cl.Ret, cl.Err = canon(v), errText(err)
+		case 16: // a defined string type with its own text encoding, as a top-level parameter and result
+			lv := []Level{"warn", "error", "", "custom"}[r.Intn(4)]
+			cl.Method, cl.Arg, cl.Oracle = "EchoLevel", canon(string(lv)), canon(string(roundTripVal(c, lv)))
+			v, err := rem.EchoLevel(ctx, tag, lv)
+			cl.Ret, cl.Err = canon(string(v)), errText(err)
 		case 10: // named non-struct types
 			cn, nm := Count([]uint64{0, 7, 1 << 40}[r.Intn(3)]), Name(GenString(r))
 			cl.Method, cl.Arg, cl.Oracle = "EchoNamed", canon([]any{cn, nm}), "["+roundTrip(c, cn)+","+roundTrip(c, nm)+"]"
@@ -375,7 +427,7 @@ func FamErrors[T any](c Codec[T], stream bool, chunk int, seed int64, n int) Sys
 	}
 	ctx, cancel := context.WithTimeout(context.Background(), 20*time.Second)
 	defer cancel()
-	msgs := append([]string{"<nil>", "x", " lead", "trail ", "\ttab\t", "\nnl", "a\nb", "\"quoted\"", "ünï ☃", "   . ", " nbsp "}, sampleStrings[2:]...)
+	msgs := append([]string{"disk is 100% full", "%s %d %v %!", "100%", "<nil>", "x", " lead", "trail ", "\ttab\t", "\nnl", "a\nb", "\"quoted\"", "ünï ☃", "   . ", " nbsp "}, sampleStrings[2:]...)
 	for i := 0; i < n; i++ {
 		from, rem := "A", p.ra
 		if r.Intn(2) == 0 {
@@ -384,7 +436,25 @@ func FamErrors[T any](c Codec[T], stream bool, chunk int, seed int64, n int) Sys
 		tag := 300 + i
 		msg := msgs[r.Intn(len(msgs))]
 		cl := SysCall{Tag: tag, From: from, Arg: canon(msg)}
-		switch r.Intn(8) {
+		switch r.Intn(9) {
+		case 8: // a closure that returns a nil value together with an error (and one with a value, and one with neither)
+			cl.Method = "IterNilErr"
+			v, err := rem.IterNilErr(ctx, tag, func(ctx context.Context, page int) ([]string, error) {
+				switch page {
+				case 0:
+					return []string{"a"}, nil
+				case 1:
+					if msg == "<nil>" {
+						return nil, nil
+					}
+					return nil, errors.New(msg)
+				}
+				return nil, nil
+			})
+			cl.Ret, cl.Err = v, errText(err)
+			if err == nil {
+				cl.Err = "<nil>"
+			}
 		case 7: // an error value whose fields no serializer can encode: only its message travels
 			cl.Method = "FailFancy"
 			cctx, ccancel := context.WithTimeout(ctx, 3*time.Second)
@@ -1141,6 +1211,62 @@ func FamCancel[T any](c Codec[T], stream bool, chunk int, seed int64) SysRecord 
 		close(release)
 		add(SysCall{Tag: 720, From: "A", Method: "IterCtx", Ret: v, Err: errText(err), Done: true})
 		probe(730, "after a cancelled closure invocation")
+	}
+	// 3. a call whose context ends with a CAUSE still returns the context's error (not the cause)
+	{
+		cctx, ccancel := context.WithCancelCause(ctx)
+		done := make(chan SysCall, 1)
+		go func() {
+			v, err := p.ra.Gate(cctx, 740)
+			done <- SysCall{Tag: 740, From: "A", Method: "CancelledWithCause", Ret: canon(v), Err: errText(err), Done: true}
+		}()
+		waitUntil(func() bool { return hasInv(p.w, "Gate", 740) }, 3*time.Second)
+		ccancel(errors.New("user pressed abort"))
+		select {
+		case cl := <-done:
+			add(cl)
+		case <-time.After(3 * time.Second):
+			add(SysCall{Tag: 740, From: "A", Method: "CancelledWithCause", Err: "DID-NOT-RETURN"})
+		}
+		close(p.w.gate(740))
+		tctx, tcancel := context.WithTimeoutCause(ctx, 20*time.Millisecond, errors.New("watchdog"))
+		v, err := p.ra.Gate(tctx, 741)
+		tcancel()
+		add(SysCall{Tag: 741, From: "A", Method: "TimedOutWithCause", Ret: canon(v), Err: errText(err), Done: true})
+		close(p.w.gate(741))
+	}
+	// 4. two calls in flight pass closures made by the same function literal; one of them is cancelled: the other
+	//    one's closure must stay invocable
+	{
+		mk := func(k int) cbI { return func(ctx context.Context, x int) (int, error) { return 100*k + x, nil } }
+		cctx, ccancel := context.WithCancel(ctx)
+		adone, bdone := make(chan SysCall, 1), make(chan SysCall, 1)
+		go func() {
+			v, err := p.ra.Delayed(cctx, 750, mk(1))
+			adone <- SysCall{Tag: 750, From: "A", Method: "CancelledSibling", Ret: canon(v), Err: errText(err), Done: true}
+		}()
+		go func() {
+			pctx, pcancel := context.WithTimeout(ctx, 6*time.Second)
+			defer pcancel()
+			v, err := p.ra.Delayed(pctx, 751, mk(2))
+			bdone <- SysCall{Tag: 751, From: "A", Method: "SurvivingSibling", Ret: canon(v), Err: errText(err), Done: true}
+		}()
+		waitUntil(func() bool { return hasInv(p.w, "Delayed", 750) && hasInv(p.w, "Delayed", 751) }, 3*time.Second)
+		ccancel()
+		select {
+		case cl := <-adone:
+			add(cl)
+		case <-time.After(3 * time.Second):
+			add(SysCall{Tag: 750, From: "A", Method: "CancelledSibling", Err: "DID-NOT-RETURN"})
+		}
+		close(p.w.gate(751))
+		select {
+		case cl := <-bdone:
+			add(cl)
+		case <-time.After(7 * time.Second):
+			add(SysCall{Tag: 751, From: "A", Method: "SurvivingSibling", Err: "DID-NOT-RETURN"})
+		}
+		close(p.w.gate(750))
 	}
 	rec.LinkA, rec.LinkB = p.close()
 	rec.Events = p.w.Events()
